@@ -168,7 +168,7 @@ func Exp10(d Decimal) Decimal {
 			exp--
 		}
 
-		if dSigInt > maxUnbiasedExponent+58 {
+		if dSigInt > exponentBias+maxDigits {
 			if d.Signbit() {
 				return zero(false)
 			}
@@ -193,19 +193,7 @@ func Exp10(d Decimal) Decimal {
 	var res decomposed192
 	var trunc int8
 
-	var sigInt uint128
-	var expInt int16
-
-	if dSigInt != 0 {
-		sigInt = uint128{1, 0}
-
-		for dSigInt > maxUnbiasedExponent {
-			sigInt = sigInt.mul64(10)
-			dSigInt--
-		}
-
-		expInt = int16(dSigInt)
-	}
+	expInt := int16(dSigInt)
 
 	if dSig[0]|dSig[1] != 0 {
 		res, trunc = decomposed192{
@@ -233,7 +221,7 @@ func Exp10(d Decimal) Decimal {
 		}
 	}
 
-	if res.exp > maxUnbiasedExponent+58 {
+	if res.exp > exponentBias+maxDigits+58 {
 		if d.Signbit() {
 			return zero(false)
 		}
